@@ -17,7 +17,7 @@ def run(prop, pcfg, repo, scratch, seed, cfg):
     known = [e for e in json.load(open(os.path.join(ROOT, "known_findings.json")))["findings"] if e["property"] == prop and e.get("status") == "known"]
     for b, args in finders:
         exe = replay.exe(scratch, b)
-        for k in range(3):
+        for k in range(int(os.environ.get("VERIF_THOROUGH_SEEDS", "6"))):
             sd = str(seed + k)
             try:
                 p = subprocess.run([exe] + args + [sd], capture_output=True, text=True, timeout=600)
